@@ -15,7 +15,7 @@ Atomic steps       exactly the LOCK / UNLOCK / WAIT / TSIGNAL / pthread_create /
                    the preceding point, except that reads of racy plain fields that steer control
                    (`sock`, `state`) are separate silent (`tau`) steps, so the model has all the
                    interleavings of the scheduler and more.
-The model follows the code WITH fixes/C13-01 … C13-05 applied (see docs/C13.md):
+The model follows the code WITH fixes/C13-01 … C13-06 applied (see docs/C13.md):
   rfbClientIteratorNext   LOCK L; step (skipping closed clients); rfbIncrClientRef(next); UNLOCK L;
                           rfbDecrClientRef(prev)
   rfbClientConnectionGone LOCK L; LOCK R; while refCount>0 {UNLOCK L; WAIT d,R; UNLOCK R; LOCK L;
@@ -32,7 +32,8 @@ The model follows the code WITH fixes/C13-01 … C13-05 applied (see docs/C13.md
   rfbSendBell/CutText*    per client: skip unless NORMAL; LOCK S; writes; on failure rfbCloseClient;
                           UNLOCK S
   rfbNewFramebuffer       per client: ref++, LOCK S (remembered); LOCK C; per remembered client:
-                          LOCK U; TSIGNAL u; UNLOCK U; UNLOCK S; ref--; UNLOCK C
+                          LOCK U; TSIGNAL u; UNLOCK U; UNLOCK S; ref--; UNLOCK C; then the loop of
+                          rfbMarkRectAsModified (per client: LOCK U; TSIGNAL u; UNLOCK U)
   rfbShutdownServer       stop + join listener; per client: rfbCloseClient if open; advance iterator;
                           join its input thread
 Over-approximations (more behaviours than the code, never fewer): message processing in the input
@@ -430,7 +431,8 @@ def nfSucc (s : State) (t : Tid) (st : NSt) (i : Nat) : List (Lbl × State) :=
   | .lockC =>
     (doLock s t .C 0).toList.map fun s1 =>
       (.lock .C 0, setC s1 t (if s1.alk.length = 0 then .nf .unlockC 0 else .nf .lockU 0))
-  | .unlockC => [(.unlock .C 0, setC (setAlkT (doUnlock s t .C 0) t []) t (finished t))]
+  -- ... and finally rfbMarkRectAsModified(whole screen): clients that connected meanwhile are refreshed too
+  | .unlockC => [(.unlock .C 0, setC (setAlkT (doUnlock s t .C 0) t []) t (.iter .mark .lockL none none))]
   | _ =>
     match s.alk[i]? with
     | none => []
